@@ -49,7 +49,7 @@ CONSTANTS FeatLo, FeatHi,     \* feature counts FeatLo..FeatHi
           RowCls,             \* subset of {"one", "two", "three"}: number of row-scan chunks
           Errs,               \* subset of {"none", "no_specid", "no_label", "no_scannr", "no_peptide", "no_proteins", "lab2", "lab-3"}
           NRows,              \* rows of the model tables
-          Rotate, RotK,       \* TRUE: lev/ord/cs/enc/nan/rows are not crossed but rotated (RotK rotations per point)
+          Rotate, RotK,       \* TRUE: lev/ord/cs/enc/nan/rows/workers are not crossed but rotated (RotK rotations per point)
           AsIs_Remainder1Only,     \* chunking of pin.py before 799639f: identifiers get their own chunk only for remainder 1
           AsIs_ChargeDefaultName,  \* pin.py:192 looks the charge column up under the name "charge_column"
           Mut_KeepSingleNaN,  \* fault: features are dropped only when more than one has missing values
@@ -137,6 +137,7 @@ CasingSeq == <<"mixed", "lower", "upper">>
 EncSeq == <<"pm", "zo", "bool">>
 NanSeq == <<"none", "first", "two", "last", "mid", "all", "charge">>
 RowSeq == <<"one", "two", "three">>
+WorkerSeq == <<1, 2, 3, 4>>
 LabelErrs == {"lab2", "lab-3"}
 
 Feats(n) == [j \in 1..n |-> "feature"]
@@ -185,11 +186,12 @@ Sel(seq, S) == SelectSeq(seq, LAMBDA e : e \in S)
 Pick(seq, S, i) == LET s == Sel(seq, S) IN s[(i % Len(s)) + 1]
 LevSeqOfSets == <<{}, LevKinds, {"precursor"}, {"modifiedpeptide", "peptidegroup"}, {"modifiedpeptide"},
                   {"peptidegroup"}, {"modifiedpeptide", "precursor"}, {"precursor", "peptidegroup"}>>
-RotCase(nf, opt, cc, w, err, rot) ==
+RotCase(nf, opt, cc, err, rot) ==
    LET h == nf * 7 + Cardinality(opt) * 3 + cc + rot * 5
        enc0 == Pick(EncSeq, Encs, h \div 2 + rot)
        nan0 == Pick(NanSeq, NanCls, h + rot \div 2)
-   IN [nfeat |-> nf, opt |-> opt, cc |-> cc, w |-> w, err |-> err,
+   IN [nfeat |-> nf, opt |-> opt, cc |-> cc, err |-> err,
+       w   |-> Pick(WorkerSeq, Workers, h + rot),        \* RotK = |Workers|: every worker count at every point
        lev |-> Pick(LevSeqOfSets, LevSets, h + 2 * rot),
        ord |-> Pick(OrderSeq, Orders, h + rot),
        cs  |-> Pick(CasingSeq, Casings, h \div 3 + rot),
@@ -198,8 +200,8 @@ RotCase(nf, opt, cc, w, err, rot) ==
        rows |-> Pick(RowSeq, RowCls, h \div 4 + rot)]
 Cases ==
    IF Rotate
-   THEN {RotCase(nf, opt, cc, w, err, rot) : nf \in FeatLo..FeatHi, opt \in OptSets, cc \in Chunks,
-                                             w \in Workers, err \in Errs, rot \in 0..(RotK - 1)}
+   THEN {RotCase(nf, opt, cc, err, rot) : nf \in FeatLo..FeatHi, opt \in OptSets, cc \in Chunks,
+                                          err \in Errs, rot \in 0..(RotK - 1)}
    ELSE {k \in [nfeat : FeatLo..FeatHi, opt : OptSets, lev : LevSets, ord : Orders, cs : Casings, enc : Encs,
                 nan : NanCls, cc : Chunks, w : Workers, rows : RowCls, err : Errs] : CaseOK(k)}
 InputOf(k) == LET hdr == HdrOf(k.nfeat, k.opt, k.lev, k.ord, k.err) IN
